@@ -651,12 +651,12 @@ fn pow3(n: usize) -> u64 {
 fn c05_check(c: &C05Case, st: &mut Stats) -> CheckResult {
     let text = c.sem.adf.text();
     let n = c.sem.adf.n();
-    let o = Oracle::new(&c.sem.adf.acs);
+    let ex = expect_of(&c.sem.adf.acs);
     let expected = match c.mode {
-        NgMode::TwoValChannel | NgMode::TwoValBounded(_) => o.two_valued(),
-        _ => oracle::stable(&c.sem.adf.acs),
+        NgMode::TwoValChannel | NgMode::TwoValBounded(_) => ex.two,
+        _ => ex.stable,
     };
-    let (grd, _) = o.grounded();
+    let grd = ex.grd;
     let und = grd.iter().filter(|t| !t.decided()).count();
     let limit = 2 * (2 * n as u64 + 4) * (pow3(n) + 1);
     let backend = [Backend::Native, Backend::HybridPre, Backend::HybridNoPre, Backend::FromBio][(c.backend % 4) as usize];
@@ -841,6 +841,18 @@ pub fn c05(tier: Tier) -> PropSpec {
             300,
             move || {
                 (sem_case(1, hi), heu_strategy(), prop_oneof![4 => Just(NgMode::StableIter), 4 => Just(NgMode::StableChannel), 4 => Just(NgMode::TwoValChannel), 1 => (0u8..3).prop_map(NgMode::StableBounded), 1 => (0u8..3).prop_map(NgMode::TwoValBounded)], 0u8..4)
+                    .prop_map(|(sem, heu, mode, backend)| C05Case { sem, heu, mode, backend })
+                    .boxed()
+            },
+            c05_check,
+        ),
+        // wider ADFs with tens to hundreds of (two-valued / stable) models: long runs of the learner, many nogoods
+        Part::with_shrink(
+            "many-models",
+            tier.pick(2500, 25000),
+            100,
+            || {
+                (sem_case_many_models(6, 9), heu_strategy(), prop_oneof![Just(NgMode::StableIter), Just(NgMode::StableChannel), Just(NgMode::TwoValChannel)], 0u8..4)
                     .prop_map(|(sem, heu, mode, backend)| C05Case { sem, heu, mode, backend })
                     .boxed()
             },
